@@ -842,7 +842,31 @@ func (x *H) sectionUncles(r *hx.Rng, scale int) {
 		}
 		cc := c.c
 		var start uint64
-		switch r.Intn(4) {
+		// xver: the chain crosses a version-changing fork (HF5/HF8/HF9) at main index kF; the block AT the fork includes a side
+		// block from just below it, and the block under test tries to include that uncle again (uncle hashes are taken with the
+		// version of the uncle's own height on both sides of the fork)
+		xver, kF := false, 0
+		switch r.Intn(5) {
+		case 4:
+			var fs []uint64
+			for _, hf := range []int{5, 8, 9} {
+				if f := cc.HF[hf]; f != nil && f.Uint64() >= 6 {
+					fs = append(fs, f.Uint64())
+				}
+			}
+			if len(fs) == 0 {
+				cc = []*params.ChainConfig{params.TestnetChainConfig, params.Testnet2ChainConfig, params.MainnetChainConfig}[r.Intn(3)]
+				c = cfgT{map[*params.ChainConfig]string{params.TestnetChainConfig: "@testnet", params.Testnet2ChainConfig: "@testnet2", params.MainnetChainConfig: "@mainnet"}[cc], cc}
+				for _, hf := range []int{5, 8, 9} {
+					if f := cc.HF[hf]; f != nil && f.Uint64() >= 6 {
+						fs = append(fs, f.Uint64())
+					}
+				}
+			}
+			f := fs[r.Intn(len(fs))]
+			kF = 3 + r.Intn(3)
+			start = f - uint64(kF)
+			xver = true
 		case 0: // around the HF5 uncle-limit switch
 			start = 0
 			if h5 := cc.HF[5]; h5 != nil && h5.Uint64() > 6 {
@@ -856,11 +880,18 @@ func (x *H) sectionUncles(r *hx.Rng, scale int) {
 			start = pickStart(r, cc)
 		}
 		length := 9 + r.Intn(4)
+		if xver {
+			length = kF + 3 + r.Intn(4)
+		}
 		main := x.seedChain(r, cc, start, length)
 		// side blocks: siblings of main[k] (children of main[k-1]), k >= 1
 		sides := map[int][]*types.Header{}
 		for k := 1; k < length; k++ {
-			for s := 0; s < r.Intn(3); s++ {
+			ns := r.Intn(3)
+			if xver && ns == 0 {
+				ns = 1
+			}
+			for s := 0; s < ns; s++ {
 				var g *types.Header
 				if k >= 2 {
 					g = main[k-2]
@@ -872,14 +903,21 @@ func (x *H) sectionUncles(r *hx.Rng, scale int) {
 		ch := newChain(cc)
 		var blocks []*types.Block
 		included := []*types.Header{}
+		var xverUncle *types.Header
 		for k := 0; k < length-1; k++ {
 			var us []*types.Header
-			if k >= 2 && r.Intn(3) == 0 {
+			if k >= 2 && (r.Intn(3) == 0 || (xver && k == kF)) {
 				d := 1 + r.Intn(2)
+				if xver && k == kF {
+					d = 1
+				}
 				if k-d >= 1 && len(sides[k-d]) > 0 {
 					uu := sides[k-d][r.Intn(len(sides[k-d]))]
 					us = append(us, uu)
 					included = append(included, uu)
+					if xver && k == kF {
+						xverUncle = uu
+					}
 				}
 			}
 			hd := types.CopyHeader(main[k])
@@ -912,7 +950,7 @@ func (x *H) sectionUncles(r *hx.Rng, scale int) {
 			}
 		}
 		nStoredBlocks := len(blocks)
-		if r.Intn(6) == 0 { // shallow history: fewer than 7 ancestors available
+		if !xver && r.Intn(6) == 0 { // shallow history: fewer than 7 ancestors available
 			drop := r.Intn(nStoredBlocks)
 			blocks = blocks[drop:]
 		}
@@ -924,6 +962,11 @@ func (x *H) sectionUncles(r *hx.Rng, scale int) {
 		var us []*types.Header
 		kind := []string{}
 		nu := []int{0, 1, 1, 1, 2, 2, 3}[r.Intn(7)]
+		if xver && xverUncle != nil && r.Intn(4) > 0 {
+			us = append(us, xverUncle)
+			kind = append(kind, "included-xver")
+			nu = 1
+		}
 		for len(us) < nu {
 			switch r.Intn(13) {
 			case 0, 1, 2, 3: // a side block at depth d (1 = sibling of the block itself → dangling by rule; 2..7 in window; 8+ too old)
